@@ -699,7 +699,8 @@ impl<'g, 'r> ProgGen<'g, 'r> {
                 4 | 5 => Expr::bin(BinOp::Shr, self.leaf_w(fc, t8), Expr::lit(self.g.below(8) as i32)),
                 0 => Expr::bin(BinOp::Shl, self.leaf_w(fc, Ty::U8), Expr::lit(8)),
                 1 => Expr::bin(
-                    BinOp::Or,
+                    // the two bytes do not overlap: `|` and `+` compose the same value
+                    if self.g.chance(1, 2) { BinOp::Or } else { BinOp::Add },
                     Expr::bin(BinOp::Shl, self.leaf_w(fc, Ty::U8), Expr::lit(8)),
                     self.leaf_w(fc, Ty::U8),
                 ),
@@ -1229,6 +1230,28 @@ impl<'g, 'r> ProgGen<'g, 'r> {
                 };
                 if update_first {
                     self.label("do-while-update-first");
+                    if self.cfg.switch && self.g.chance(1, 2) {
+                        // `continue`, then a switch without `continue` later in the same body: the jump to
+                        // the loop condition needs its label whatever follows
+                        self.label("continue-then-switch-in-do-while");
+                        Self::new_expr_ctx(fc);
+                        let c = self.condition(fc, 1);
+                        let save = (fc.in_for, fc.in_loop);
+                        fc.in_for = 0;
+                        fc.in_loop = 0;
+                        let sw = self.switch_stmt(fc);
+                        fc.in_for = save.0;
+                        fc.in_loop = save.1;
+                        v.insert(0, sw);
+                        // `if (c) continue;` is a conditional branch to the label, `{ ...; continue; }` a jump
+                        let cont = if self.g.chance(1, 2) {
+                            Stmt::Continue
+                        } else {
+                            let st = self.assign_stmt(fc);
+                            Stmt::Block(vec![st, Stmt::Continue])
+                        };
+                        v.insert(0, Stmt::If(c, Box::new(cont), None));
+                    }
                     v.insert(0, Stmt::Expr(upd));
                 } else {
                     v.push(Stmt::Expr(upd));
@@ -1781,7 +1804,46 @@ impl<'g, 'r> ProgGen<'g, 'r> {
         let arrs = self.arrays(fc, Some(true), true);
         let px = fc.protected.contains("X");
         let py = fc.protected.contains("Y");
-        match self.g.below(26) {
+        match self.g.below(32) {
+            29 | 30 | 31 => {
+                // a subtraction without borrow leaves the carry set, then a 16-bit value is composed from
+                // two bytes: the byte pass that adds nothing must not let the old carry into the other one
+                let wide: Vec<(String, Ty)> = self.visible_scalars(fc, Some(false), true).into_iter().filter(|(n, _)| !fc.protected.contains(n)).collect();
+                if wide.is_empty() {
+                    return vec![self.assign_stmt(fc)];
+                }
+                let w = self.g.pick(&wide).0.clone();
+                let hi = Expr::bin(BinOp::Shl, Expr::var(&a), Expr::lit(8));
+                let lo = if self.g.chance(2, 3) { Expr::var(&b) } else { Expr::lit(self.g.below(300) as i32) };
+                let op = if self.g.chance(2, 3) { BinOp::Add } else { BinOp::Or };
+                let composed = if self.g.chance(1, 2) { Expr::bin(op, hi, lo) } else { Expr::bin(op, lo, hi) };
+                vec![
+                    Stmt::Expr(Expr::assign(LValue::Var(b.clone()), Expr::bin(BinOp::Sub, Expr::var(&b), Expr::lit(0)))),
+                    Stmt::Expr(Expr::assign(LValue::Var(w), composed)),
+                ]
+            }
+            26 | 27 | 28 => {
+                // a register holding a small or large constant is stepped across the 0 / 255 boundary and then
+                // compared with the wrapped value: what the optimizer believes the register holds must wrap
+                // like the register does
+                let reg = if !px && (py || self.g.chance(1, 2)) { "X" } else if !py { "Y" } else { return vec![self.assign_stmt(fc)] };
+                let up = self.g.chance(1, 2);
+                let start = if up { 255 - self.g.below(3) as i32 } else { self.g.below(3) as i32 };
+                let steps = 1 + self.g.below(3) as i32;
+                let end = if up { (start + steps) & 255 } else { (start - steps) & 255 };
+                let mut out = vec![Stmt::Expr(Expr::assign(LValue::Var(reg.into()), Expr::lit(start)))];
+                for _ in 0..steps {
+                    out.push(Stmt::Expr(Expr::IncDec(up, self.g.chance(1, 2), LValue::Var(reg.into()))));
+                }
+                let op = *self.g.pick(&[BinOp::Ne, BinOp::Eq, BinOp::Ne]);
+                let cmp = if self.g.chance(3, 4) { end } else { (end + 1) & 255 };
+                out.push(Stmt::If(
+                    Expr::bin(op, Expr::var(reg), Expr::lit(cmp)),
+                    Box::new(Stmt::Expr(Expr::assign(LValue::Var(a.clone()), Expr::lit(k + 1)))),
+                    None,
+                ));
+                out
+            }
             23 | 24 | 25 => {
                 // a register is set, a variable is stored, and the variable is then tested by a condition
                 // that has something to settle before its branch (a post-increment, a borrowed index
